@@ -177,6 +177,7 @@ func checkC08(w *World, r *Report) {
 	r.Rule("R08.3", "Encode and Decode use the same encoding object", 4)
 	r.Rule("R08.4", "Base85 substitution table covers the forbidden bytes and is inverted by Decode", 1)
 	r.Rule("R08.5", "written-length results are used", 2)
+	r.Rule("R08.7", "ascii85.Decode has worst-case room or its consumed count is checked", 1)
 	r.Rule("R08.6", "advertised expansion ratios are at least the information-theoretic minimum", 8)
 
 	codecs := findCodecs(w)
@@ -292,6 +293,86 @@ func checkC08(w *World, r *Report) {
 	c08Base85(w, r)
 	c08WrittenLen(w, r)
 	c08Ratios(w, r, codecs)
+	c08DecodeRoom(w, r)
+}
+
+// linearInLen: v = a*len(src) + b (integers); ok=false when v is anything else.
+func linearInLen(v ssa.Value, src ssa.Value, depth int) (a, b int64, ok bool) {
+	if depth > 8 {
+		return 0, 0, false
+	}
+	if c, isC := constIntVal(v); isC {
+		return 0, c, true
+	}
+	if isLenOf(v, src) {
+		return 1, 0, true
+	}
+	if bo, isB := v.(*ssa.BinOp); isB {
+		a1, b1, ok1 := linearInLen(bo.X, src, depth+1)
+		a2, b2, ok2 := linearInLen(bo.Y, src, depth+1)
+		if !ok1 || !ok2 {
+			return 0, 0, false
+		}
+		switch bo.Op {
+		case token.ADD:
+			return a1 + a2, b1 + b2, true
+		case token.SUB:
+			return a1 - a2, b1 - b2, true
+		case token.MUL:
+			if a1 == 0 {
+				return b1 * a2, b1 * b2, true
+			}
+			if a2 == 0 {
+				return a1 * b2, b1 * b2, true
+			}
+		}
+	}
+	return 0, 0, false
+}
+
+// c08DecodeRoom: R08.7 — ascii85.Decode stops silently (nil error) as soon as
+// fewer than 4 bytes of room are left, and one 'z' expands to 4 bytes: unless
+// the consumed-count result is checked, the destination must have room for
+// 4*len(src)+4 bytes.
+func c08DecodeRoom(w *World, r *Report) {
+	for fn := range allModuleFuncs(w, w.SSA()) {
+		for _, c := range callsIn(fn) {
+			f := sCallee(c)
+			if f == nil || f.Pkg() == nil || f.Pkg().Path() != "encoding/ascii85" || f.Name() != "Decode" {
+				continue
+			}
+			call := c.(*ssa.Call)
+			key := "call:ascii85.Decode@" + ssaFuncKey(fn) + "|room"
+			// is nsrc (Extract #1) used?
+			nsrcUsed := false
+			for _, ref := range *call.Referrers() {
+				if ex, ok := ref.(*ssa.Extract); ok && ex.Index == 1 && ex.Referrers() != nil && len(*ex.Referrers()) > 0 {
+					nsrcUsed = true
+				}
+			}
+			if nsrcUsed {
+				r.Hold("R08.7", key, w.Pos(call.Pos()), "the number of consumed source bytes is inspected")
+				continue
+			}
+			dst, src := call.Call.Args[0], call.Call.Args[1]
+			okRoom := false
+			why := "destination buffer size is not a linear function of len(source)"
+			for _, root := range provenance(dst, provOpts{}) {
+				if ms, ok := root.(*ssa.MakeSlice); ok {
+					a, b, lin := linearInLen(ms.Len, src, 0)
+					if lin {
+						if a >= 4 && b >= 4 {
+							okRoom = true
+						} else {
+							why = fmt.Sprintf("destination has %d*len(source)%+d bytes", a, b)
+						}
+					}
+				}
+			}
+			r.Check(okRoom, "R08.7", key, w.Pos(call.Pos()), "destination has room for 4*len(source)+4 bytes (worst case: every character a 'z' group)",
+				why+": ascii85.Decode returns early with a nil error once fewer than 4 bytes of room are left and a single 'z' expands to four zero bytes, so inputs with zero groups decode to a silent prefix (the consumed-count result is discarded)")
+		}
+	}
 }
 
 // c08Ratios: R08.6 — the advertised expansion ratio cannot be below the
